@@ -8,7 +8,15 @@ import z3
 from .ops import cmp, int_binop, list_len, to_term_int
 from .values import SBool, SFloat, SInt, SList, SObj, SOpaque, Unsupported
 
-KIND_SORT = {"int": z3.IntSort(), "bool": z3.BoolSort(), "float": z3.Float64()}
+class _KindSort(dict):
+    def __getitem__(self, k):
+        if k == "float":
+            from .values import FloatMode
+            return z3.RealSort() if FloatMode.mode == "real" else z3.Float64()
+        return dict.__getitem__(self, k)
+
+
+KIND_SORT = _KindSort({"int": z3.IntSort(), "bool": z3.BoolSort()})
 
 
 def wrap(kind: str, term):
